@@ -50,6 +50,18 @@ def check_table_roles(cx: Cx, ob: Ob, tables_wanted: list[str]) -> None:
             for e in entries:
                 ob.site(e.site, f"{origin}: {table}[{'|'.join(sorted(e.key_fields)) or '?'}] = {e.value_field or show(e.value)[:40]}")
                 if e.key_unknown and not e.key_fields:
+                    k_ = e.key
+                    if op(k_) == "call" and op(k_[1]) == "attr" and k_[1][2] in ("casefold", "lower", "upper", "strip", "title", "capitalize", "swapcase") and not k_[2]:
+                        from ..rules import Prov as _Pv
+
+                        ob.violate(
+                            e.fn,
+                            e.site,
+                            f"{table} gets an entry under `{show(k_)[:50]}`, a transformed spelling that no record lists: lookups succeed for names that are neither a canonical value nor a synonym of any record",
+                            witness="after add_prefix('CHEBI', ..., case_sensitive=False): standardize_prefix('chebi') == 'CHEBI' although no record lists 'chebi'",
+                            detail=f"{table}:key-transformed",
+                        )
+                        continue
                     ob.undecide(f"key of write to {table} at {e.site} not recognised")
                     continue
                 if not e.key_fields <= key_fields:
